@@ -843,7 +843,7 @@ func runC18TCPAllocClose(t *testing.T, rng *rand.Rand, rec *sim.Rec, tier string
 		wg.Wait()
 		select {
 		case <-accepted:
-		case <-time.After(15 * time.Second):
+		case <-time.After(2 * time.Second):
 			// (an Accept still blocked after Close is what the unchanged client does when no attempt
 			// is pending - the doc comment promises otherwise, no property here does)
 			rec.Ev("accept-still-blocked-after-close")
